@@ -776,7 +776,7 @@ Section Safety.
   Proof.
     intro Hd.
     destruct (Rc_drun ops (batch_begin outer) (scratch_new s)) as (sc & H1 & H2 & H3).
-    - unfold batch_begin, outer_store. rewrite Hd. reflexivity.
+    - unfold batch_begin, batch_base. rewrite Hd. reflexivity.
     - constructor.
     - exists sc. repeat split; assumption.
   Qed.
@@ -786,7 +786,7 @@ Section Safety.
     batch_abort outer (drun ops (batch_begin outer)) = outer.
   Proof.
     intro Hd. destruct (batch_inner ops outer s Hd) as (sc & H1 & H2 & _).
-    unfold batch_abort, inner_scratch. rewrite H1. cbn [sabort wrapped]. rewrite H2.
+    unfold batch_abort, inner_scratch. rewrite Hd, H1. cbn [sabort wrapped]. rewrite H2.
     unfold with_db. rewrite <- Hd. apply trie_eta.
   Qed.
 
@@ -1436,26 +1436,26 @@ Section Safety.
     t_prune outer = false ->
     batch_commit H BNH outer inner = (Err e, t') -> t_root t' = t_root outer.
   Proof.
-    intros Hpr E. unfold batch_commit in E. rewrite Hpr in E.
-    destruct (scommit false (inner_scratch inner)) as [sc' [e0|]].
+    intros Hpr E. unfold batch_commit in E.
+    destruct (commit_db outer inner) as [db' [e0|]].
     - injection E as _ <-. reflexivity.
-    - cbv beta iota in E.
+    - cbv beta iota in E. rewrite Hpr in E.
       destruct (negb (bytes_eqb (t_root outer) (t_root inner))).
-      + destruct (get_node BNH (RStr (t_root inner)) (with_db outer (DPlain (wrapped sc'))))
+      + destruct (get_node BNH (RStr (t_root inner)) (with_db outer db'))
           as [[raw|e1] tx].
-        * destruct (_set_raw_node H BNH raw (with_db outer (DPlain (wrapped sc'))))
+        * destruct (_set_raw_node H BNH raw (with_db outer db'))
             as [[h|e2] outer2] eqn:Es; [discriminate E|].
           injection E as _ <-. rewrite (Rroot__set_raw_node _ _ _ _ Es). reflexivity.
         * destruct (key_error_hash e1); [discriminate E|]. injection E as _ <-. reflexivity.
       + discriminate E.
   Qed.
 
-  Lemma batch_commit_ao outer inner sc :
-    t_prune outer = false ->
+  Lemma batch_commit_ao outer inner sc s0 :
+    t_prune outer = false -> t_db outer = DPlain s0 ->
     t_db inner = DScratch sc -> wrapped sc = outer_store outer -> cache_ok (cache sc) ->
     ao outer (snd (batch_commit H BNH outer inner)).
   Proof.
-    intros Hpr Hdi Hw Hc. unfold batch_commit, inner_scratch. rewrite Hdi, Hpr.
+    intros Hpr Hdo Hdi Hw Hc. unfold batch_commit, commit_db, inner_scratch. rewrite Hdo, Hdi, Hpr.
     unfold scommit. rewrite Hw.
     pose proof (apply_cache_app_only _ Hc (outer_store outer)) as Ha.
     destruct (apply_cache false (cache sc) (outer_store outer)) as [w err]. cbn [fst wrapped] in *.
@@ -1487,7 +1487,7 @@ Section Safety.
     assert (Hao : ao outer t').
     { replace t' with (snd (batch_commit H BNH outer (drun ops (batch_begin outer))))
         by (rewrite E; reflexivity).
-      apply (batch_commit_ao outer _ sc Hpr H1); [|exact H3].
+      apply (batch_commit_ao outer _ sc s Hpr Hd H1); [|exact H3].
       unfold outer_store. rewrite Hd. exact H2. }
     pose proof (ao_post outer s t' Hpr Hpe Hd Hao) as (Hp1 & Hp2 & Hp3 & Hp4).
     split; [exact Hp1|]. repeat (split; [assumption|]).
